@@ -224,12 +224,14 @@ RunResult run(J const &plan) {
     if (has_switch_mts) res.features += "+switch@mts";
   }
   uint64_t fp = 1469598103934665603ULL;
+  double fa_max = 0;   // largest force on a variable seen so far in the run with all biases
   for (size_t s = 0; s < full.recs.size() && !res.violation; s++) {
     StepRec const &A = full.recs[s];
     std::string at = "step " + std::to_string(A.step) + " (record " + std::to_string(s) + ")";
     if (s >= jump_any) break;
     if (A.err) { res.fail("superposition", s < full.errmsg.size() && full.errmsg[s].find("cannot decrease reference count of feature \"active\"") != std::string::npos ? "step_error/active_reference_count" : "step_error", at + ": error bits " + std::to_string(A.err) + ": " + (s < full.errmsg.size() ? full.errmsg[s] : "")); break; }
     size_t nf = A.fapp.size();
+    for (double v : A.cv_fa) fa_max = std::max(fa_max, std::fabs(v));
     std::vector<double> sum(nf, 0.0); double esum = 0, scale = 0, escale = 0;
     for (size_t i = 0; i < nb; i++) {
       StepRec const &B = alone[i].recs[s];
@@ -239,8 +241,13 @@ RunResult run(J const &plan) {
       std::string t = bl.a[i].at("tmpl").as_str(); long tsf = (long)bl.a[i].at("tsf").as_int(1);
       bool off = s < alone[i].active.size() && !alone[i].active[s].empty() && !alone[i].active[s][0];
       // its own energy is the same alone and together
+      if (getenv("CVSIM_DEBUG") && !B.bias_e.empty()) { size_t ja = (size_t)(std::find(full.order.begin(), full.order.end(), bl.a[i].at("name").as_str()) - full.order.begin()); if (ja < A.bias_e.size()) fprintf(stderr, "step %ld bias %s together %.17g alone %.17g  ft together %.17g alone %.17g  fa together %.17g alone %.17g\n", A.step, bl.a[i].at("name").as_str().c_str(), A.bias_e[ja], B.bias_e[0], A.cv_ft.empty() ? 0 : A.cv_ft[0], B.cv_ft.empty() ? 0 : B.cv_ft[0], A.cv_fa.empty() ? 0 : A.cv_fa[0], B.cv_fa.empty() ? 0 : B.cv_fa[0]); }
       size_t ia = (size_t)(std::find(full.order.begin(), full.order.end(), bl.a[i].at("name").as_str()) - full.order.begin());
-      if (ia < A.bias_e.size() && !B.bias_e.empty() && !close_enough(A.bias_e[ia], B.bias_e[0], std::max(std::fabs(A.bias_e[ia]), std::fabs(B.bias_e[0])), rt, at_e)) {
+      // (lagged forces: ABF's samples are the difference of the measured projection and the remembered applied force of ALL biases; its
+      //  rounding, amplified by the conditioning of the inverse gradients - 8e-9 relative was observed on a dihedral - scales with the largest
+      //  force any bias put on a variable so far, not with ABF's own small numbers)
+      double at_e_eff = at_e + (abf_late ? 1e-7 * fa_max : 0.0);
+      if (ia < A.bias_e.size() && !B.bias_e.empty() && !close_enough(A.bias_e[ia], B.bias_e[0], std::max(std::fabs(A.bias_e[ia]), std::fabs(B.bias_e[0])), rt, at_e_eff)) {
         res.fail("superposition", "bias_energy_depends_on_other_biases/" + t, at + ": energy of " + bl.a[i].at("name").as_str() + " = " + fmt_double(A.bias_e[ia]) + " together, " + fmt_double(B.bias_e[0]) + " alone"); break; }
       // contributes nothing: non-biasing, switched off, or asleep
       bool asleep = tsf > 1 && (A.step % tsf) != 0;
@@ -252,10 +259,10 @@ RunResult run(J const &plan) {
       }
     }
     if (res.violation) break;
-    for (size_t c = 0; c < nf; c++) if (!close_enough(A.fapp[c], sum[c], scale, rt, at_f)) {
+    for (size_t c = 0; c < nf; c++) if (!close_enough(A.fapp[c], sum[c], scale, rt, at_f + (abf_late ? 1e-7 * fa_max * (1.0 + scale) : 0.0))) {
       res.fail("superposition", "atom_force", at + ": force component " + std::to_string(c) + " = " + fmt_double(A.fapp[c]) + " together, sum of the single-bias runs " + fmt_double(sum[c])); break; }
     if (res.violation) break;
-    if (!close_enough(A.energy, esum, escale, rt, at_f)) { res.fail("superposition", "energy", at + ": energy " + fmt_double(A.energy) + " together, sum of the single-bias runs " + fmt_double(esum)); break; }
+    if (!close_enough(A.energy, esum, escale, rt, at_f + (abf_late ? 1e-7 * fa_max : 0.0))) { res.fail("superposition", "energy", at + ": energy " + fmt_double(A.energy) + " together, sum of the single-bias runs " + fmt_double(esum)); break; }
     compared++;
     fp = fnv_dbl(A.energy, fp);
   }
@@ -294,6 +301,7 @@ Property make() {
            "through the script interface between segments, same-step or lagged total forces; references = each bias alone, and factor-1 twins of stateless factor-n biases; "
            "non-trivial = at least one step compared; distinct = hash of (templates with factors, segmentation and switches)";
   p.rule += " Later additions: the live module may reload its own state between segments; the activity oracle reads the run with all biases.";
+  p.rule += " Fifth round: ABF-with-lagged-forces tolerances carry a term proportional to the largest force any bias put on a variable.";
   p.assumptions = {"kinematic positions: a bias cannot reach another through the atoms; lagged total forces contain Colvars' own forces of the previous step and every variable has subtractAppliedForce on (the documented coupling for ABF next to other biases)",
                    "sums are compared at rtol 1e-10 of the largest term (different summation order), zero contributions and the factor n exactly (1e-12)",
                    "ABF only on one variable and without timeStepFactor; the energy of 'abf applyBias off' is not required to be zero (it reports its PMF estimate)"};
